@@ -440,6 +440,10 @@ def _do_edit(w, op, G):
     if kind == "join_returns":
         if any(r["targets"] and all(t in r["backedges"] for t in r["targets"]) for r in pre.values()):
             return "skip"
+        if any(is_region(b) and not b._jump_targets for b in G.graph.values()) \
+                and hier.state_invariants(w.g, want=("C04",)):
+            w.probe_hit("edit-skipped:inconsistent-hierarchy")
+            return "skip"
         try:
             CURRENT["in_library"] = True
             G.join_returns()
@@ -458,6 +462,12 @@ def _do_edit(w, op, G):
         if not tails or not exits:
             return "skip"
         if any(set(G.graph[t].backedges) & set(exits) for t in tails):
+            return "skip"
+        if any(is_region(G.graph[t]) for t in tails) and hier.state_invariants(w.g, want=("C04",)):
+            # as for insert/control below: a region predecessor in a hierarchy that a
+            # stage applied to a freely edited graph (or its reload) left inconsistent
+            # is not a valid input (thorough run, seed 20260924: KeyError in _reroute)
+            w.probe_hit("edit-skipped:inconsistent-hierarchy")
             return "skip"
         shape = "op=jte:tails=%s:exits=%s" % (min(len(tails), 2), min(len(exits), 3))
         ev0 = len(ISSUED)
